@@ -179,6 +179,12 @@ func computeYear(lunar *Lunar) {
 			gExact++
 			zExact++
 		}
+	} else {
+		//农历年早于阳历年开始（历史改历期间，岁首在阳历12月），此时仍在下一个立春之前
+		g--
+		z--
+		gExact--
+		zExact--
 	}
 
 	if g < 0 {
